@@ -18,7 +18,7 @@ func VerifC03_AcceptedByRestart() {
 	f, st, chid := verifInstalled(1, 0)
 	zz.Assume(st.SelfPeer == st.Initiator && st.Status == datatransfer.AwaitingAcceptance)
 	resp := verifArbitraryResponse("resp")
-	resp.TransferId = uint64(chid.ID)
+	zz.SetInt(&resp.TransferId, uint64(chid.ID))
 	zz.Assume(resp.MessageType == uint64(types.RestartMessage) && resp.RequestAccepted)
 	zz.Assume(resp.EmptyVoucherResult() || resp.VoucherResultPtr != nil)
 	err := f.rcv.receiveResponse(context.Background(), chid.Responder, resp)
